@@ -307,6 +307,19 @@ Fixpoint guard_ok_from (earlier : list gobs) (l : list gobs) : bool :=
   end.
 Definition C16_guard_ok (l : list gobs) : bool := guard_ok_from [] l.
 
+(* One iteration of sync.Run: the reference-clock collection and the peer collection run
+   concurrently, each under its own context with the same timeout, and Run hands the
+   correction over (adj.Do) when both have returned.  d = the instant of the hand-over relative
+   to the start of the iteration.  It is no later than the round's deadline, and it is the
+   instant at which the last source completed when every source completed before the deadline.
+   (A collection over no clocks is not started at all: it counts as returned at 0.) *)
+Definition all_before (sc : scen) : bool := forallb (before_dl sc) (seq 0 (nclk sc)).
+Definition latest_completion (sc : scen) : Z :=
+  fold_right (fun k acc => match ctime sc k with Some t => Z.max t acc | None => acc end) 0 (seq 0 (nclk sc)).
+Definition C16_sync_round_ok (sc_r sc_p : scen) (d : Z) : bool :=
+  (d <=? Z.max (dl sc_r) (dl sc_p)) &&
+  (if all_before sc_r && all_before sc_p then d =? Z.max (latest_completion sc_r) (latest_completion sc_p) else true).
+
 (* The same clause for calls that are made CONCURRENTLY (several goroutines calling at the
    same instant): the order in which the calls reached the guard is not observable, so the
    oracle is independent of the order of the list.  No two calls that returned may have been
